@@ -87,6 +87,18 @@ theorem decode_case_sensitive (k : Bytes) (v : JVal) (a b : List (Bytes × JVal)
 
 example : ([73, 68] : Bytes) ∉ wireNames := by decide   -- "ID"
 
+/-- **decode_error_case_sensitive.** The same one level down, in the `error` object the codec decodes itself:
+a member of it whose name is not exactly `code`, `message` or `data` — `Code`, `MESSAGE`, `Data` — has no
+influence on decoding, wherever it stands in the error object (before or after the real member, or instead of
+it) and wherever the `error` member stands in the message. -/
+theorem decode_error_case_sensitive (k : Bytes) (v : JVal) (ea eb pre post : List (Bytes × JVal))
+    (h : k ∉ wireErrorNames) :
+    decodeMsg (.obj (pre ++ (wireDecode_Error_name, .obj (ea ++ (k, v) :: eb)) :: post)) =
+      decodeMsg (.obj (pre ++ (wireDecode_Error_name, .obj (ea ++ eb)) :: post)) :=
+  L.decode_error_case_sensitive k v ea eb pre post h
+
+example : ([67, 111, 100, 101] : Bytes) ∉ wireErrorNames := by decide   -- "Code"
+
 /-- **decode_total.** Decoding returns a message or an error class for every JSON value (the Go
 side's "never panics on arbitrary bytes" is the fuzzing obligation of the tie). -/
 theorem decode_total (w : JVal) : (∃ m, decodeMsg w = .ok m) ∨ (∃ e, decodeMsg w = .error e) :=
